@@ -416,6 +416,12 @@ impl MqttShared {
                     pkt.packet_id()
                 );
                 Err(error::ProtocolError::packet_id_mismatch())
+            } else if !pkt.is_match(tp) {
+                log::trace!("MQTT protocol error, unexpeted packet");
+                Err(error::ProtocolError::unexpected_packet(
+                    pkt.packet_type(),
+                    tp.expected_str(),
+                ))
             } else if matches!(pkt, Ack::Receive(_)) {
                 // get publish ack channel
                 log::trace!("Ack packet receive with id: {}", pkt.packet_id());
